@@ -19,12 +19,13 @@ LEVEL = "proof"   # of the model; PARTIAL with respect to the property text: see
 LEVEL_NOTE = ("decision logic of every loader proved over Sys/Loaders.v (accept iff canonical within the cap; size test before any "
               "read/hash; provers touch no prover artifact; extra files inert); file-system behaviour of the real loaders observed "
               "(strace, event-by-event against the model's log), keccak / plonky2 codecs / canonical rebuild are parameters")
-RULE = ("harness/src/bin/loaders.rs rebuilds the canonical leaf, private-batch (n=1,2) and public-batch ((1,1),(2,1)) circuits from /repo "
+RULE = ("harness/src/bin/loaders.rs rebuilds the canonical leaf, private-batch (n=1; thorough also n=2) and public-batch ((1,1),(2,1)) circuits from /repo "
         "and a full bins directory (generate_all_circuit_binaries(1, Some(1))), checks generated == rebuilt byte for byte, then feeds every "
         "loader: the canonical artifacts; truncations (1,2,8,half,all-but-one,all), extensions (00, ff, 8 zeros, itself), single-bit flips "
         "(first/last byte + evenly spaced positions with a seeded offset: ~120 per artifact for the keccak-pinned verifier, ~40 for the "
-        "leaf byte pin, a few for the loaders that rebuild a recursive circuit on every call; thorough: every ~byte), artifacts of another "
-        "shape (n=2, m=2), of another config (zk leaf, private batch under the public config), of another circuit (fake leaf, swapped "
+        "leaf byte pin, a seeded sample of 1-3 for the loaders that rebuild a recursive circuit (~40 CPU-s) on every call; thorough: "
+        "every position / ~1000 / 8-12), artifacts of another "
+        "shape (m=2; n=2 thorough), of another config (zk leaf; private batch under the public config thorough), of another circuit (fake leaf, swapped "
         "common/verifier-only), zeros, random, poisoned length fields; files: missing, sparse oversized (cap+1, 2^40, 2^41), at the cap; "
         "directories: extra files and bogus prover.bin / private_batch_prover.bin / public_batch_prover.bin, config.json variants, "
         "garbage/oversized templates; an oversized slice backed by PROT_NONE memory (any read kills the child). The strace step runs each "
